@@ -5,6 +5,7 @@ import Pyunicorn.Model.SurrogatesKernelW
 import Pyunicorn.Model.SurrogatesObject
 import Pyunicorn.Model.SurrogatesMethod
 import Pyunicorn.Model.SurrogatesCoupling
+import Pyunicorn.Model.SurrogatesWalkK
 import Pyunicorn.Generated.StructC15
 /-! Line-protocol driver for C15 (surrogates).  Matrices: rows separated by `;`,
 an empty row is `-`, the empty matrix is `E`; lists of matrices separated by `|`
@@ -172,6 +173,14 @@ def answer (toks : List String) : String :=
   | ["walk_s", n, dr, tws] =>
       match walkRows n.toNat! (pickOf (rats dr)) (matsOf nats tws) 0 with
       | some (idx, c) => showMat showNats idx ++ "#" ++ toString c
+      | none => "raise:IndexError"
+  | ["walk_sk", n, dr, tws] =>
+      match walkKernelS n.toNat! (fun c => (rats dr).getD c 0) (matsOf nats tws) 0 with
+      | some (idx, c) => showMat showInts idx ++ "#" ++ toString c
+      | none => "raise:IndexError"
+  | ["walk_rk", n, ns, dr, tw] =>
+      match walkKernelR n.toNat! (matOf nats tw) (fun c => (rats dr).getD c 0) ns.toNat! 0 with
+      | some (idx, c) => showMat showInts idx ++ "#" ++ toString c
       | none => "raise:IndexError"
   | ["walk_r", n, ns, dr, tw] =>
       match walkRep n.toNat! (matOf nats tw) (pickOf (rats dr)) ns.toNat! 0 with
